@@ -99,6 +99,11 @@ where
         1 => {
             let v = fft::evaluate_poly_with_offset(&p, &tw, off, 1 << log_blowup);
             out.push(("evaluate_poly_with_offset".into(), digest(&v)));
+            // other cosets: the subgroup itself (offset 1) and a coset the prover never uses
+            for (name, o) in [("evaluate_poly_with_offset(offset=1)", B::<E>::ONE), ("evaluate_poly_with_offset(offset=1/g)", B::<E>::GENERATOR.inv())] {
+                let v = fft::evaluate_poly_with_offset(&p, &tw, o, 1 << log_blowup);
+                out.push((name.into(), digest(&v)));
+            }
         },
         2 => {
             let mut v = p.clone();
@@ -109,6 +114,11 @@ where
             let mut v = p.clone();
             fft::interpolate_poly_with_offset(&mut v, &itw, off);
             out.push(("interpolate_poly_with_offset".into(), digest(&v)));
+            for (name, o) in [("interpolate_poly_with_offset(offset=1)", B::<E>::ONE), ("interpolate_poly_with_offset(offset=1/g)", B::<E>::GENERATOR.inv())] {
+                let mut v = p.clone();
+                fft::interpolate_poly_with_offset(&mut v, &itw, o);
+                out.push((name.into(), digest(&v)));
+            }
         },
         _ => {
             out.push(("get_twiddles".into(), digest(&tw)));
@@ -217,7 +227,8 @@ where
         let t = winter_utils::transpose_slice::<E, N>(evals);
         let folded = winter_fri::folding::apply_drp(&t, <E::BaseField as StarkField>::GENERATOR, alpha);
         let hashes = winter_fri::utils::hash_values::<Blake3_256<E::BaseField>, E, N>(&t);
-        vec![("apply_drp".into(), digest(&folded)), ("hash_values".into(), digest(&hashes))]
+        let folded1 = winter_fri::folding::apply_drp(&t, <E::BaseField as FieldElement>::ONE, alpha);
+        vec![("apply_drp".into(), digest(&folded)), ("apply_drp(offset=1)".into(), digest(&folded1)), ("hash_values".into(), digest(&hashes))]
     }
     let n = 1usize << log_n;
     let evals: Vec<E> = elems(seed, n);
@@ -331,10 +342,11 @@ fn pools_for(item: &Item, json: &str) -> Vec<usize> {
         Item::Proof { shape } if shape.log_n <= 5 => (1..=64).collect(),
         Item::Proof { .. } => {
             let mut v = POOLS.to_vec();
-            let mut h = vf_core::hash_str(json);
+            // five more sizes from a stream seeded by the item (splitmix64: the earlier `h / 64 + c` recurrence
+            // has a fixed point, so for some items it proposed one size forever)
+            let mut st = vf_core::hash_str(json) as u64;
             while v.len() < POOLS.len() + 5 {
-                let k = (h % 64) as usize + 1;
-                h = h / 64 + 0x9e37_79b9;
+                let k = (splitmix(&mut st) % 64) as usize + 1;
                 if !v.contains(&k) {
                     v.push(k);
                 }
@@ -448,7 +460,7 @@ impl SubCheck for Conc {
     }
     fn rule(&self) -> String {
         format!(
-            "workload items on both sides of every concurrency threshold: FFT evaluate/interpolate (with offset and blowup)/twiddles at n in {{512,1024,2048,8192}}, power series / batch inversion with zeros / add_in_place / mul_acc at lengths {{1,1023,1024,1025,2047,2048,4096,10000}}, transpose_slice, Merkle trees of 2..4096 leaves (4 hashers), RowMatrix::evaluate_polys_over::<1|2|4|8|16> + row commitments for 1..255 columns x 8..16384 LDE rows (base and extension), apply_drp + hash_values, whole GenAir proofs up to 2^12 (quick) / 2^14 rows (constraint evaluation domains on both sides of 8192) and of 8..32 rows under blowup 128 with a constraint of degree > 64 (every pool size 1..64); each item is computed serially (build without the feature) and in the concurrent build inside rayon pools of {:?} threads, 2 (quick) / 3 (thorough) repetitions each, and once in pools of every other size 1..64 (whole proofs: five other sizes derived from the item); all digests must be equal (for proofs: context, all commitments, OOD frame; both proofs must verify; nonce and query data exempt); non-trivial = item at or above its concurrency threshold; schedules are sampled, not enumerated",
+            "workload items on both sides of every concurrency threshold: FFT evaluate/interpolate (with offset generator, 1 and 1/generator, and blowup)/twiddles at n in {{512,1024,2048,8192}}, power series / batch inversion with zeros / add_in_place / mul_acc at lengths {{1,1023,1024,1025,2047,2048,4096,10000}}, transpose_slice, Merkle trees of 2..4096 leaves (4 hashers), RowMatrix::evaluate_polys_over::<1|2|4|8|16> + row commitments for 1..255 columns x 8..16384 LDE rows (base and extension), apply_drp + hash_values, whole GenAir proofs up to 2^12 (quick) / 2^14 rows (constraint evaluation domains on both sides of 8192) and of 8..32 rows under blowup 128 with a constraint of degree > 64 (every pool size 1..64); each item is computed serially (build without the feature) and in the concurrent build inside rayon pools of {:?} threads, 2 (quick) / 3 (thorough) repetitions each, and once in pools of every other size 1..64 (whole proofs: five other sizes derived from the item); all digests must be equal (for proofs: context, all commitments, OOD frame; both proofs must verify; nonce and query data exempt); non-trivial = item at or above its concurrency threshold; schedules are sampled, not enumerated",
             POOLS
         )
     }
